@@ -212,9 +212,36 @@ func (m *mism) add(f string, a ...any) {
 	m.mu.Unlock()
 }
 
+// c18WellFormed checks "g<owner>-<n>-<run of the letter 'a'+n%26>" byte by byte
+func c18WellFormed(v []byte, owner int) string {
+	parts := strings.SplitN(string(v), "-", 3)
+	if len(parts) != 3 || parts[0] != fmt.Sprintf("g%d", owner) {
+		return "wrong owner prefix"
+	}
+	var n int
+	if _, err := fmt.Sscan(parts[1], &n); err != nil {
+		return "no sequence number"
+	}
+	if len(parts[2]) < 5 {
+		return "payload too short"
+	}
+	for i := 0; i < len(parts[2]); i++ {
+		if parts[2][i] != byte('a'+n%26) {
+			return fmt.Sprintf("payload byte %d is %q, the sequence number says %q", i, parts[2][i], byte('a'+n%26))
+		}
+	}
+	return ""
+}
+
 func c18DB(dir string, seed int64, perG int) c18Result {
 	r := rand.New(rand.NewSource(seed))
-	opts := dbOptSet{Memstore: uint64(40 + r.Intn(200)), Threshold: r.Intn(3), MaxSize: gen.Pick(r, uint64(500), 1<<40), Ratio: 0.2, ReadBuf: 4096, WriteBuf: 4096,
+	// one run in three keeps everything in ONE write memstore (1 MiB): overwrites then meet readers that still hold an
+	// earlier result of the same memstore cell
+	memLimit := uint64(40 + r.Intn(200))
+	if r.Intn(3) == 0 {
+		memLimit = 1 << 20
+	}
+	opts := dbOptSet{Memstore: memLimit, Threshold: r.Intn(3), MaxSize: gen.Pick(r, uint64(500), 1<<40), Ratio: 0.2, ReadBuf: 4096, WriteBuf: 4096,
 		Live: true, IntervalMs: 1, IntervalUs: gen.Pick(r, 50, 300, 1000)}
 	db, err := simpledb.NewSimpleDB(dir, opts.Options()...)
 	if err == nil {
@@ -251,8 +278,13 @@ func c18DB(dir string, seed int64, perG int) c18Result {
 				var err error
 				switch x := gr.Intn(100); {
 				case x < 35:
-					v := fmt.Sprintf("g%d-%d", g, i)
-					err = db.Put(k, v)
+					// self-describing values: owner, sequence number, then a run of ONE letter determined by the number
+					v := fmt.Sprintf("g%d-%d-", g, i) + strings.Repeat(string(rune('a'+i%26)), 5+gr.Intn(300))
+					if gr.Intn(2) == 0 {
+						err = db.PutBytes([]byte(k), []byte(v))
+					} else {
+						err = db.Put(k, v)
+					}
 					if err == nil {
 						own[k] = v
 					}
@@ -268,6 +300,19 @@ func c18DB(dir string, seed int64, perG int) c18Result {
 						w, ok := own[k]
 						if found != ok || v != w {
 							mm.add("goroutine %d: Get(%s)=(%q,%v) but its own sequential history says (%q,%v)", g, k, v, found, w, ok)
+						}
+					}
+				case x < 88:
+					// a key that ANOTHER goroutine keeps overwriting and deleting: whatever is returned must be one of that
+					// goroutine's values, whole (the bytes are inspected after the call has returned, without any lock)
+					og := (g + 1 + gr.Intn(7)) % 8
+					fk := fmt.Sprintf("g%d-k%d", og, gr.Intn(4))
+					vb, e := db.GetBytes([]byte(fk))
+					if e != nil && !errors.Is(e, simpledb.ErrNotFound) {
+						err = e
+					} else if e == nil {
+						if why := c18WellFormed(vb, og); why != "" {
+							mm.add("goroutine %d: GetBytes(%s) returned a value that goroutine %d never wrote (%s): %q", g, fk, og, why, cutS(string(vb), 80))
 						}
 					}
 				case x < 97:
